@@ -46,7 +46,14 @@ spec fn le_bytes64(x: u64) -> Seq<u8> { Seq::new(8, |i: int| (x >> ((8 * i) as u
 spec fn spec_blob_header(section_length: u64) -> Seq<u8> {
     Seq::new(16, |i: int| if i < 8 { 0u8 } else { le_bytes64(section_length)[i - 8] })
 }
+#[verifier::opaque]
 spec fn up4(p: int) -> int { if p % 4 == 0 { p } else { p + 4 - p % 4 } }
+/// arithmetic of the blob section: padded length as computed by the code, and the padding written by align
+proof fn lemma_blob_lengths(c0: int, len: int, cfin: int)
+    requires c0 >= 0, c0 % 4 == 0, len >= 0, cfin % 4 == 0, cfin >= c0 + 16 + len, cfin - (c0 + 16 + len) < 4
+    ensures cfin - (c0 + 16 + len) == up4(16 + len) - 16 - len,
+        (16 + len) + (4 - (16 + len) % 4) % 4 == up4(16 + len), up4(16 + len) >= 16 + len, up4(16 + len) <= 16 + len + 3
+{ reveal(up4); }
 /// the section length counts the header, the payload and the padding to the next 4-byte boundary
 spec fn spec_blob_section_length(payload: int) -> int { up4(16 + payload) }
 spec fn zeros(n: int) -> Seq<u8> { Seq::new(n as nat, |i: int| 0u8) }
@@ -63,12 +70,10 @@ proof fn lemma_div_split(a: int, b: int)
 /// Verified against the Source model and the extracted PagedWriter::write (through the restated write_all).
 fn copy_into_writer(reader: &mut Source, writer: &mut PagedWriter) -> (r: std::result::Result<u64, IoError>)
     requires old(reader).wf(), old(writer).wf(),
-        old(writer).dl() + 1024 * ((old(writer).offset + old(reader).remaining().len()) / 1020 + 8) < u64::MAX,
     ensures final(reader).data@ == old(reader).data@,
         match r {
             Ok(n) => final(writer).wf() && n == old(reader).remaining().len() && final(reader).pos == old(reader).data@.len()
                 && appended(*old(writer), *final(writer), old(reader).remaining())
-                && final(writer).dl() <= old(writer).dl() + 1024 * ((old(writer).offset + old(reader).remaining().len()) / 1020)
                 && final(writer).dl() >= old(writer).dl()
                 && final(writer).no_new_fault(old(writer)) && final(reader).failed@ == old(reader).failed@,
             Err(_) => final(writer).writer.failed@ || final(reader).failed@ || true },
@@ -78,15 +83,13 @@ fn copy_into_writer(reader: &mut Source, writer: &mut PagedWriter) -> (r: std::r
     let ghost w0 = *writer;
     let ghost all = reader.remaining();
     let ghost p0 = reader.pos as int;
-    proof { assert(appended(w0, *writer, Seq::<u8>::empty())); }
+    proof { lemma_appended_refl(*writer); assert(all.subrange(0, 0) =~= Seq::<u8>::empty()); }
     loop
         invariant
             reader.wf(), writer.wf(), reader.data@ == old(reader).data@, w0 == *old(writer), all == old(reader).remaining(),
             p0 == old(reader).pos, reader.pos == p0 + total, total <= all.len(),
             appended(w0, *writer, all.subrange(0, total as int)), w0.cursor() >= 0,
             writer.no_new_fault(&w0), reader.failed@ == old(reader).failed@,
-            writer.dl() + 1024 * ((writer.offset + (all.len() - total)) / 1020 + 8) < u64::MAX,
-            writer.dl() + 1024 * ((writer.offset + (all.len() - total)) / 1020) <= w0.dl() + 1024 * ((w0.offset + all.len()) / 1020),
             writer.dl() >= w0.dl(),
         ensures false
         decreases all.len() - total
@@ -102,7 +105,6 @@ fn copy_into_writer(reader: &mut Source, writer: &mut PagedWriter) -> (r: std::r
             let chunk = buf@.subrange(0, n as int);
             assert(chunk =~= all.subrange(total as int, total + n));
             lemma_appended_trans(w0, wb, *writer, all.subrange(0, total as int), chunk);
-            lemma_div_split(wb.offset + n, all.len() - total - n);
             assert(all.subrange(0, total as int) + chunk =~= all.subrange(0, total + n));
         }
         total = total + n as u64;
@@ -142,11 +144,11 @@ impl BlobSectionHeader {
 //@rw PagedWriter<T> ==> PagedWriter
 //@rw u64::to_le_bytes\(self\.section_length\) ==> shim_u64_to_le_bytes(self.section_length)
 //@sig
-        requires old(writer).wf(), old(writer).dl() + 8192 < u64::MAX,
+        requires old(writer).wf(),
         ensures match r {
             // emits exactly the 16 header bytes of the format at the cursor
             Ok(_) => final(writer).wf() && appended(*old(writer), *final(writer), spec_blob_header(self.section_length))
-                && final(writer).no_new_fault(old(writer)) && final(writer).dl() <= old(writer).dl() + 1024,
+                && final(writer).no_new_fault(old(writer)),
             Err(_) => true },
 //@tail
         proof { assert(bytes@ =~= spec_blob_header(self.section_length)); }
@@ -235,7 +237,6 @@ impl Blob {
         requires old(writer).wf(), old(reader).wf(),
             // sections start 4-byte aligned (every writer of a section aligns afterwards)
             old(writer).cursor() % 4 == 0,
-            old(writer).dl() + 1024 * ((old(writer).offset + old(reader).remaining().len()) / 1020 + 32) < u64::MAX,
         ensures match r {
             Ok(b) => ({
                 let payload = old(reader).remaining();
@@ -253,12 +254,6 @@ impl Blob {
 //@body_start
         let ghost s0 = *writer;
         let ghost payload = reader.remaining();
-        proof {
-            let q = (writer.offset + payload.len()) / 1020;
-            assert(q >= 0);
-            lemma_div_split(writer.offset + 16, payload.len() as int);
-            assert((writer.offset + 16 + payload.len()) / 1020 <= q + 1);
-        }
 //@call to_writer 0 after
         let ghost s1 = *writer;
 //@call copy_into_writer 0 after
@@ -279,6 +274,7 @@ impl Blob {
             lemma_patch_prefix(s0, s2, s3, s4, s5, hdr0, payload, hdr);
             let pad = Seq::new((writer.cursor() - s5.cursor()) as nat, |i: int| 0u8);
             lemma_appended_trans(s0, s5, *writer, hdr + payload, pad);
+            lemma_blob_lengths(s0.cursor(), payload.len() as int, writer.cursor());
             assert(pad =~= zeros(up4(16 + payload.len() as int) - 16 - payload.len()));
         }
 //@endfn
